@@ -26,6 +26,11 @@ IdsOfKind(k) ==
 (* transactions worth asking for: those of blocks ever stored, plus a hash nobody has *)
 SeenTx == UNION {{TxsOf(p)[i] : i \in 1..Len(TxsOf(p))} : p \in seen} \cup {BogusTx}
 
+(* hashes of transactions the node once stored and no longer holds (dropped by a revert and not
+   re-included by the fork): asked for on purpose, most interestingly once the fork block occupies
+   their old (number, index) slot.  BogusTx keeps the set non-empty. *)
+DroppedTx == {t \in SeenTx : DTxPos(t) = NoIdx}
+
 AllNext ==
   \/ \E v \in Variants : Store(v)
   \/ Revert
@@ -46,6 +51,9 @@ AllNext ==
   \/ \E t \in R(SeenTx) : GetTransactionByHash(t)
   \/ \E t \in R(SeenTx) : GetTransactionReceipt(t)
   \/ \E t \in R(SeenTx) : GetTransactionStatus(t)
+  \/ \E t \in R(DroppedTx) : GetTransactionByHash(t)
+  \/ \E t \in R(DroppedTx) : GetTransactionReceipt(t)
+  \/ \E t \in R(DroppedTx) : GetTransactionStatus(t)
 
 (* guidance: most behaviours start by building a chain (reads on the empty chain stay possible) *)
 SimNext == IF steps < 3 /\ RandomElement(1..4) # 1 THEN \E v \in R(Variants) : Store(v) ELSE AllNext
